@@ -647,9 +647,12 @@ def check_c10(rng, n, hashseeds=("0", "1", "2")):
             workers.append(subprocess.Popen([sys.executable, "-c", WORKER], env=env, stdin=subprocess.PIPE,
                                             stdout=subprocess.PIPE, stderr=subprocess.DEVNULL, text=True, bufsize=1))
         for i in range(n):
-            spec = simgen.gen_spec(rng, pairing=rng.choice(["batch", "batch", "queue", "dynamic", "greedy"]))
+            # stratified by index so that every run has its share of each shape, whatever the seed
+            shape = ("batch", "tie", "delay", "any")[i % 4]
+            spec = simgen.gen_spec(rng, pairing="batch" if shape == "batch" else
+                                   rng.choice(["batch", "queue", "dynamic", "greedy"]))
             # many simultaneously ready tasks on heterogeneous machines make order matter
-            if rng.random() < 0.7:
+            if shape in ("batch", "delay") or rng.random() < 0.7:
                 nm = rng.randint(3, 6)
                 spec["machines"] = [{"id": "m%d" % k, "flops": f, "bw": rng.choice([1, 2, 4])}
                                     for k, f in enumerate(rng.sample([2, 4, 5, 8, 10, 20, 40], nm))]
@@ -668,7 +671,7 @@ def check_c10(rng, n, hashseeds=("0", "1", "2")):
                 spec["cold"]["capacity"] = spec["hot"]["capacity"] + 5
                 spec["hot"]["rate"] = max([spec["hot"]["rate"]] + [o["rate"] for o in spec["observations"]])
                 spec["total_arrays"] = max(spec["total_arrays"], max(o["demand"] for o in spec["observations"]))
-                if rng.random() < 0.5:
+                if shape == "delay" or (shape == "any" and rng.random() < 0.5):
                     # an active delay model with runtimes long enough for the delay to show
                     spec["delay"] = {"prob": rng.choice([0.3, 0.5, 0.7]), "degree": rng.choice(["MID", "HIGH"]),
                                      "seed": rng.choice([0, 0, rng.randint(0, 60), rng.randint(0, 60), rng.randint(0, 60)])}
@@ -678,7 +681,7 @@ def check_c10(rng, n, hashseeds=("0", "1", "2")):
                             nd["comp"] = mx * rng.randint(8, 20)
                 elif spec.get("delay") and "prob" in spec["delay"]:
                     spec["delay"] = None
-            if rng.random() < 0.25:
+            if shape == "tie":
                 # planned-start ties: several roots with zero planned duration on few machines, so that a
                 # plan-driven algorithm meets ready tasks of equal est planned on the same machine
                 spec["planning"], spec["scheduling"] = "static", {"kind": "dynamic"}
